@@ -162,7 +162,7 @@ func C06(p *core.Program, r *core.Report) {
 		"Table":  {absLinksKey},
 		"Figure": {}, // wrapper: image part + caption part, checked through its children
 		"Image":  {absSrcKey, absSrcSetKey},
-		"Video":  {absSrcKey},
+		"Video":  {absSrcKey, absSrcSetKey}, // a <source> of a video may carry srcset, which StripAttributes keeps
 	}
 	for _, fn := range outputFuncs(p) {
 		for i, o := range outputReturns(p, fn) {
@@ -247,7 +247,7 @@ func C06(p *core.Program, r *core.Report) {
 
 	// ---- U3
 	want := map[string][]string{
-		absLinksKey:  {"a", "href", "video", "poster"},
+		absLinksKey:  {"a", "area", "href", "video", "poster"},
 		absSrcKey:    {"img", "source", "track", "video", "src", "img,source,track,video"},
 		absSrcSetKey: {"srcset", "[srcset]"},
 	}
